@@ -3,7 +3,7 @@
 
      dial     = Start t timeout          deadline := time.Now().Add(timeout)
               ; Draw t                   getTCPAddrs: idx := atomic.AddUint32(&e.addrsIdx, 1)   (uint32: wraps)
-              ; for range n { tryDial(addrs[idx%n]) ; idx++ }
+              ; for i := range n { tryDial(addrs[(idx%n+i)%n]) }          (uint32 arithmetic)
      tryDial  = Check t                  time.Until(deadline) <= 0  -> ErrDialTimeout(addr)
               ; (AcqFast t | AcqFull t ; (AcqSlow t | SemTimeout t))      the concurrencyCh semaphore racing a timer
               ; (ConnOk t | ConnRefused t | ConnDeadline t)               net.Dialer.DialContext: outcome oracle
@@ -54,8 +54,8 @@ Inductive dlabel :=
 
 Definition upd {A} (f : N -> A) (k : N) (v : A) : N -> A := fun x => if x =? k then v else f x.
 
-(* addrs[idx % n] after k increments of the uint32 idx *)
-Definition addr_of (c : dcfg) (i0 k : N) : N := ((i0 + k) mod W32) mod (nad c).
+(* addrs[(idx%n + i) % n] in the k-th iteration; the sum is a uint32 *)
+Definition addr_of (c : dcfg) (i0 k : N) : N := ((i0 mod nad c + k) mod W32) mod (nad c).
 
 Definition set_tp (s : dstate) (t : N) (p : tpc) : dstate := mkDS (sem s) (aidx s) (clock s) (upd (tp s) t p) (inprog s).
 Definition has_slot (c : dcfg) (s : dstate) : bool := (cap c =? 0) || (sem s <? cap c).
@@ -122,31 +122,29 @@ Definition rot (c : dcfg) (i0 k : N) : list N := map (fun j => addr_of c i0 (N.o
 (* ======================================================================================
    Event-driven run of the transition system against an outcome oracle (used by the replay):
    `oracle a` says what a connect to address a does: accept, refuse, or hang (never completes:
-   the deadline ends it).  A connect cut by the deadline returns through ConnDeadline when
-   ctx.Err() is already DeadlineExceeded, and through ConnRefused (a plain error: the socket deadline's
-   "i/o timeout") when the socket timer beat the context timer: `iot t` picks the second for thread t.  Threads take their enabled steps in list order; when every thread is
+   the deadline ends it: ctx.Err() == DeadlineExceeded, or a net.Error timeout at/after the deadline when
+   the socket timer beat the context timer — both are ErrDialTimeout, step ConnDeadline).  Threads take their enabled steps in list order; when every thread is
    waiting (for the semaphore or for a hanging connect) time jumps to the earliest deadline. *)
 Inductive outcome := OAccept | ORefuse | OHang.
 
-Definition step_thread (c : dcfg) (s : dstate) (oracle : N -> outcome) (iot : N -> bool) (t : N) : option dstate :=
+Definition step_thread (c : dcfg) (s : dstate) (oracle : N -> outcome) (t : N) : option dstate :=
   match tp s t with
   | TDraw _ => dstep c s (LDraw t)
   | TLoop _ _ _ _ => dstep c s (LCheck t)
   | TSem _ _ _ _ => match dstep c s (LAcqFast t) with Some s1 => Some s1 | None => dstep c s (LAcqFull t) end
   | TSemWait _ _ _ _ => match dstep c s (LAcqSlow t) with Some s1 => Some s1 | None => dstep c s (LSemTimeout t) end
-  | TConn dl i0 k _ =>
+  | TConn _ i0 k _ =>
       match oracle (addr_of c i0 k) with
       | OAccept => dstep c s (LConnOk t)
       | ORefuse => dstep c s (LConnRefused t)
-      | OHang => if iot t then (if dl <=? clock s then dstep c s (LConnRefused t) else None)
-                 else dstep c s (LConnDeadline t)
+      | OHang => dstep c s (LConnDeadline t)
       end
   | _ => None
   end.
-Fixpoint first_step (c : dcfg) (s : dstate) (oracle : N -> outcome) (iot : N -> bool) (ts : list N) : option dstate :=
+Fixpoint first_step (c : dcfg) (s : dstate) (oracle : N -> outcome) (ts : list N) : option dstate :=
   match ts with
   | [] => None
-  | t :: r => match step_thread c s oracle iot t with Some s1 => Some s1 | None => first_step c s oracle iot r end
+  | t :: r => match step_thread c s oracle t with Some s1 => Some s1 | None => first_step c s oracle r end
   end.
 Definition waiting_dl (s : dstate) (t : N) : option N :=
   match tp s t with TSemWait dl _ _ _ | TConn dl _ _ _ => Some dl | _ => None end.
@@ -159,32 +157,32 @@ Fixpoint min_dl (s : dstate) (ts : list N) : option N :=
               | None, m => m
               end
   end.
-Fixpoint sim (c : dcfg) (fuel : nat) (s : dstate) (oracle : N -> outcome) (iot : N -> bool) (ts : list N) : dstate :=
+Fixpoint sim (c : dcfg) (fuel : nat) (s : dstate) (oracle : N -> outcome) (ts : list N) : dstate :=
   match fuel with
   | O => s
   | S f =>
-      match first_step c s oracle iot ts with
-      | Some s1 => sim c f s1 oracle iot ts
+      match first_step c s oracle ts with
+      | Some s1 => sim c f s1 oracle ts
       | None =>
           match min_dl s ts with
           | Some d => if clock s <? d
-                      then match dstep c s (LTick (d - clock s)) with Some s1 => sim c f s1 oracle iot ts | None => s end
+                      then match dstep c s (LTick (d - clock s)) with Some s1 => sim c f s1 oracle ts | None => s end
                       else s
           | None => s
           end
       end
   end.
 (* same, but never lets time pass beyond `until` (the next Dial call of the scenario starts then) *)
-Fixpoint sim_until (c : dcfg) (fuel : nat) (s : dstate) (oracle : N -> outcome) (iot : N -> bool) (ts : list N) (until : N) : dstate :=
+Fixpoint sim_until (c : dcfg) (fuel : nat) (s : dstate) (oracle : N -> outcome) (ts : list N) (until : N) : dstate :=
   match fuel with
   | O => s
   | S f =>
-      match first_step c s oracle iot ts with
-      | Some s1 => sim_until c f s1 oracle iot ts until
+      match first_step c s oracle ts with
+      | Some s1 => sim_until c f s1 oracle ts until
       | None =>
           match min_dl s ts with
           | Some d => if (clock s <? d) && (d <=? until)
-                      then match dstep c s (LTick (d - clock s)) with Some s1 => sim_until c f s1 oracle iot ts until | None => s end
+                      then match dstep c s (LTick (d - clock s)) with Some s1 => sim_until c f s1 oracle ts until | None => s end
                       else s
           | None => s
           end
